@@ -37,6 +37,11 @@ def run(tier, seed):
     fam = [(n, p) for n, p in ce.pair_family() if n.startswith("expired|") or "|sweep" in n or "sweep|" in n]
     res = ce.run_dfs(fxv, rd, fam, "sweep", maxsched=400 if tier == "quick" else 3000, preempt=2 if tier == "quick" else 3)
     collect(PROP, res, rd, ["SweepSafe", "Linearizable", "NotHidden"], viol, cst)
+    # the same family on the design model (StoreConc.tla: sweeper steps sample / guarded removal / accounting,
+    # lazy expiry inside increment): every interleaving, replayed on the real store
+    from checks.c07 import storeconc_part
+    scinfo = storeconc_part(tier, seed, rd, fxv, viol, cst, prop=PROP, inv=["SweepSafe", "Linearizable", "NotHidden"],
+                            fam=fam, nsample=12000)
     st["traces"] += cst["traces"]; st["states"] += cst["states"]; st["transitions"] += cst["transitions"]
     st["events"] += cst["events"]
     # restart part: the newest generation of a key has expired while the store was closed and sits at a LOWER
@@ -72,7 +77,7 @@ def run(tier, seed):
         "one trace = one seeded TTL-heavy program (TTL writes, update_ttl/persist, clock ticks across "
         "expiry instants incl. the exact instant, sweeps, flush, clean reopen with the virtual clock) "
         "on a TTL-enabled store (memory, persistent v2/v3, cache on/off); distinct by content hash",
-        q.sample_events(st["sample_trace"]), extra={"concurrent_schedules": cst["schedules"]})
+        q.sample_events(st["sample_trace"]), extra={"concurrent_schedules": cst["schedules"], "storeconc": scinfo})
     return {"level": "model_checking", "coverage": cov, "violations": viol,
             "assumptions": ["virtual clock (hook)", "sweeper driven explicitly (verif_sweep_once)"]}
 
